@@ -425,8 +425,8 @@ Definition kamal_discipline : discipline := mkDiscipline
     (bs "ServiceMap", bs "services", Guarded L_router);
     (bs "ServiceMap", bs "requestServiceMap", Guarded L_router);
     (bs "pathBinding", bs "*", Immutable);
-    (* a service: balancer slots and split under the service lock; the TLS flags are
-       rewritten by syncTLSOptionsFromRootDomain under the router write lock *)
+    (* a service: balancer slots, split and - since fix ce2a27e - the TLS flags (rewritten by
+       syncTLSOptionsFromRootDomain through setTLSSettings) under the service lock *)
     (bs "Service", bs "active", Guarded L_service);
     (bs "Service", bs "rollout", Guarded L_service);
     (bs "Service", bs "rolloutController", Guarded L_service);
@@ -438,7 +438,7 @@ Definition kamal_discipline : discipline := mkDiscipline
     (bs "Service", bs "options.ACMEDirectory", Immutable);
     (bs "Service", bs "options.ACMECachePath", Immutable);
     (bs "Service", bs "options.ErrorPagePath", Immutable);
-    (bs "Service", bs "options", Guarded L_router);   (* .TLSEnabled, .TLSRedirect and the struct as a whole *)
+    (bs "Service", bs "options", Guarded L_service);  (* .TLSEnabled, .TLSRedirect and the struct as a whole *)
     (bs "Service", bs "*", Immutable);                (* name, targetOptions, pauseController, certManager, middleware *)
     (bs "ServiceOptions", bs "*", Immutable);         (* a value type: every holder has its own copy *)
     (bs "TargetOptions", bs "*", Immutable);
